@@ -221,3 +221,241 @@ Print Assumptions C16_load_compat_step.
 Print Assumptions C16_row_vector_convention.
 Print Assumptions C16_load_compat_prefix_refuted.
 Print Assumptions C16_load_compat_fbfunc_refuted.
+
+(* ================================================================================================================
+   The R-vs-Q instance gap of the load_compat part, closed by proof (base/NumHom.v, proofs/QR_bridge_C16.v).
+   [C16_load_compat_equiv] above is about model/Store.v (part 2) at F := R; the correspondence run (run/RunC16.v, chk_legacy)
+   evaluates the SAME terms at F := Q.  [Q2R] is a homomorphism of the [Num] class, so [split_win], [convert] (load_compat) and
+   the step / readout / whole run of both the saved ESN ([legacy_*]) and the converted ESN ([v3_*]) commute with the entry-wise
+   embedding ([legacy2r], [conv2r]: every array and the leak embedded; [pairs2r]: (state, output) rows embedded), from any state
+   and any initial feedback, for ANY pair of related activations ([qv2r (f_Q v) = f_R (qv2r v)]).  No shape hypothesis, no side
+   condition; the shape predicate is number-free and preserved.
+   Activations of the runner: the feedback functions [gfun] (identity, x/2, relu) are related to [gfunR] (real x/2, real
+   comparison with 0).  The activation [act_tab tab] is a finite lookup table of (argument, result) pairs recorded from np.tanh
+   along the observed run, looked up with the tolerance test; its real counterpart [act_tabR] is the same lookup with the real
+   inequality (definable with [Rle_dec], provably related).  So the R-model of the verdict is the ESN whose activation is that
+   table; that the table replays np.tanh stays trusted (the theorems above hold for every activation, this one included).
+   The store / copy part (chk_copy_model, chk_node_copy) has no numbers: nothing to bridge.  The replayed numeric history of
+   copies (run/RunModel.v chk_hist) goes through model/ModelSem.v and is not covered by this block. *)
+From RV Require Import base.NumHom proofs.QR_bridge_C16 run.RunC16.
+
+(* load_compat itself: converting at Q then embedding = converting the embedded saved ESN at R *)
+Theorem C16_Qconvert_embeds (L : legacy (F:=Q)) : conv2r (convert L) = convert (legacy2r L).
+Proof. exact (Qconvert_embeds L). Qed.
+Print Assumptions C16_Qconvert_embeds.
+
+(* the shape hypothesis of C16_load_compat_equiv is number-free, and the runner's boolean test implies it *)
+Theorem C16_Qlegacy_shaped (L : legacy (F:=Q)) :
+  (legacy_shaped (legacy2r L) <-> legacy_shaped L) /\ (shapedb L = true -> legacy_shaped (legacy2r L)).
+Proof. split; [exact (Qlegacy_shaped L) | intros Hs; exact (proj2 (Qlegacy_shaped L) (shapedb_shaped L Hs))]. Qed.
+Print Assumptions C16_Qlegacy_shaped.
+
+(* one step of the saved ESN and of the converted ESN, any pair of related activations *)
+Theorem C16_Qlegacy_step_embeds (L : legacy (F:=Q)) (fQ gQ : list Q -> list Q) (fR gR : list R -> list R) (x u fb : list Q) :
+  (forall v, qv2r (fQ v) = fR (qv2r v)) -> (forall v, qv2r (gQ v) = gR (qv2r v)) ->
+  qv2r (legacy_step L fQ gQ x u fb) = legacy_step (legacy2r L) fR gR (qv2r x) (qv2r u) (qv2r fb) /\
+  qv2r (v3_step (convert L) fQ gQ x u fb) = v3_step (convert (legacy2r L)) fR gR (qv2r x) (qv2r u) (qv2r fb).
+Proof. exact (Qlegacy_step_embeds L fQ gQ fR gR x u fb). Qed.
+Print Assumptions C16_Qlegacy_step_embeds.
+
+(* whole sequences of (state, output) rows, from any state and any initial feedback *)
+Theorem C16_Qlegacy_run_embeds (L : legacy (F:=Q)) (fQ gQ : list Q -> list Q) (fR gR : list R -> list R)
+        (x fb : list Q) (us : list (list Q)) :
+  (forall v, qv2r (fQ v) = fR (qv2r v)) -> (forall v, qv2r (gQ v) = gR (qv2r v)) ->
+  pairs2r (legacy_run L fQ gQ x fb us) = legacy_run (legacy2r L) fR gR (qv2r x) (qv2r fb) (qm2r us).
+Proof. exact (Qlegacy_run_embeds L fQ gQ fR gR x fb us). Qed.
+Print Assumptions C16_Qlegacy_run_embeds.
+
+Theorem C16_Qconverted_run_embeds (L : legacy (F:=Q)) (fQ gQ : list Q -> list Q) (fR gR : list R -> list R)
+        (r y : list Q) (us : list (list Q)) :
+  (forall v, qv2r (fQ v) = fR (qv2r v)) -> (forall v, qv2r (gQ v) = gR (qv2r v)) ->
+  pairs2r (v3_run (convert L) fQ gQ r y us) = v3_run (convert (legacy2r L)) fR gR (qv2r r) (qv2r y) (qm2r us).
+Proof. exact (Qconverted_run_embeds L fQ gQ fR gR r y us). Qed.
+Print Assumptions C16_Qconverted_run_embeds.
+
+(* the activations the runner uses are related to real functions: the three feedback functions, and the lookup table *)
+Theorem C16_runner_activations_related :
+  (forall (g : gkind) (v : list Q), qv2r (gfun g v) = gfunR g (qv2r v)) /\
+  (forall (tab : list (list Q * list Q)) (v : list Q), qv2r (act_tab tab v) = act_tabR (pairs2r tab) (qv2r v)).
+Proof. split; [exact gfun_rel | exact act_tab_rel]. Qed.
+Print Assumptions C16_runner_activations_related.
+
+(* [gfunR] and [act_tabR] spelled out *)
+Theorem C16_gfunR_unfold (v : list R) :
+  gfunR GId v = v /\ gfunR GHalf v = map (fun a => (a / 2)%R) v /\
+  gfunR GRelu v = map (fun a => if Rle_dec a 0 then 0%R else a) v.
+Proof. repeat split; reflexivity. Qed.
+Print Assumptions C16_gfunR_unfold.
+Theorem C16_act_tabR_spec (t : list (list R * list R)) (v : list R) :
+  (exists p, In p t /\ vrclose v (fst p) /\ act_tabR t v = snd p) \/
+  ((forall p, In p t -> ~ vrclose v (fst p)) /\ act_tabR t v = []).
+Proof. exact (act_tabR_spec t v). Qed.
+Print Assumptions C16_act_tabR_spec.
+
+(* ---- the verdict of the correspondence runner, read at R ----
+   [chk_legacy] is the boolean evaluated at Q by vm_compute for every saved ESN.  [legacy_verdict_R L f g ...] says, of the
+   R-INSTANCE of the model on the embedded arrays and inputs, with the real inequality [rclose m o] := |m - o| <= 1e-9*max(1,|m|):
+   L has the shapes C16_load_compat_equiv asks for; the arrays of [convert L] are close to the arrays observed on the nodes built
+   by load_compat; the rows of [legacy_run L] from the null state are close to the rows observed on the saved ESN and on
+   compat.load(dir); the rows of [v3_run (convert L)] are close to the rows observed on compat.load_compat(dir). *)
+Theorem C16_legacy_verdict_R_unfold (L : legacy (F:=R)) (f g : list R -> list R) (dout : nat) (us : list (list R))
+    (o_saved o_loaded o_conv : list (list R * list R))
+    (cW cWin : list (list R)) (cbias : list R) (cWfb : option (list (list R))) (cWout : option (list (list R) * list R)) :
+  legacy_verdict_R L f g dout us o_saved o_loaded o_conv cW cWin cbias cWfb cWout
+  = (legacy_shaped L /\
+     mrclose (vW (convert L)) cW /\ mrclose (vWin (convert L)) cWin /\ vrclose (vbias (convert L)) cbias /\
+     omrclose (vWfb (convert L)) cWfb /\ owbrclose (vWout (convert L)) cWout /\
+     pairs_close_R (legacy_run L f g (vzeros (lN L)) (vzeros dout) us) o_saved /\
+     pairs_close_R (legacy_run L f g (vzeros (lN L)) (vzeros dout) us) o_loaded /\
+     pairs_close_R (v3_run (convert L) f g (vzeros (lN L)) (vzeros dout) us) o_conv).
+Proof. reflexivity. Qed.
+Print Assumptions C16_legacy_verdict_R_unfold.
+Theorem C16_pairs_close_R_unfold (a b : list R * list R) (m o : list (list R * list R)) :
+  pairs_close_R (a :: m) (b :: o) = (vrclose (fst a) (fst b) /\ vrclose (snd a) (snd b) /\ pairs_close_R m o).
+Proof. reflexivity. Qed.
+Print Assumptions C16_pairs_close_R_unfold.
+
+(* a verdict [true] implies it, with the table activation read at R ... *)
+Theorem C16_chk_legacy_is_about_R_model (L : legacy (F:=Q)) (tab : list (list Q * list Q)) (g : gkind) (dout : nat)
+      (us : list (list Q)) (o_saved o_loaded o_conv : list (list Q * list Q))
+      (cW cWin : list (list Q)) (cbias : list Q) (cWfb : option (list (list Q))) (cWout : option (list (list Q) * list Q)) :
+  chk_legacy L tab g dout us o_saved o_loaded o_conv cW cWin cbias cWfb cWout = true ->
+  legacy_verdict_R (legacy2r L) (act_tabR (pairs2r tab)) (gfunR g) dout (qm2r us)
+                   (pairs2r o_saved) (pairs2r o_loaded) (pairs2r o_conv)
+                   (qm2r cW) (qm2r cWin) (qv2r cbias) (option_map qm2r cWfb) (option_map wb2r cWout).
+Proof. exact (chk_legacy_is_about_R_model L tab g dout us o_saved o_loaded o_conv cW cWin cbias cWfb cWout). Qed.
+Print Assumptions C16_chk_legacy_is_about_R_model.
+
+(* ... and with ANY real activation that agrees with the table *)
+Theorem C16_chk_legacy_is_about_R_model_gen (L : legacy (F:=Q)) (tab : list (list Q * list Q)) (g : gkind) (dout : nat)
+      (us : list (list Q)) (o_saved o_loaded o_conv : list (list Q * list Q))
+      (cW cWin : list (list Q)) (cbias : list Q) (cWfb : option (list (list Q))) (cWout : option (list (list Q) * list Q))
+      (fR : list R -> list R) :
+  (forall v, qv2r (act_tab tab v) = fR (qv2r v)) ->
+  chk_legacy L tab g dout us o_saved o_loaded o_conv cW cWin cbias cWfb cWout = true ->
+  legacy_verdict_R (legacy2r L) fR (gfunR g) dout (qm2r us) (pairs2r o_saved) (pairs2r o_loaded) (pairs2r o_conv)
+                   (qm2r cW) (qm2r cWin) (qv2r cbias) (option_map qm2r cWfb) (option_map wb2r cWout).
+Proof. exact (chk_legacy_is_about_R_model_gen L tab g dout us o_saved o_loaded o_conv cW cWin cbias cWfb cWout fR). Qed.
+Print Assumptions C16_chk_legacy_is_about_R_model_gen.
+
+(* combined with C16_load_compat_equiv (whose shape hypothesis the verdict establishes for the embedded saved ESN): the two
+   R-models coincide on the scenario, so the rows observed on load_compat's ESN are close to the run of the R-model of the SAVED
+   ESN, and the rows observed on the saved / loaded ESN are close to the run of the converted R-model *)
+Theorem C16_chk_legacy_load_compat_R (L : legacy (F:=Q)) (tab : list (list Q * list Q)) (g : gkind) (dout : nat)
+      (us : list (list Q)) (o_saved o_loaded o_conv : list (list Q * list Q))
+      (cW cWin : list (list Q)) (cbias : list Q) (cWfb : option (list (list Q))) (cWout : option (list (list Q) * list Q)) :
+  chk_legacy L tab g dout us o_saved o_loaded o_conv cW cWin cbias cWfb cWout = true ->
+  let LR := legacy2r L in let fR := act_tabR (pairs2r tab) in let gR := gfunR g in
+  let x0 := vzeros (lN LR) in let fb0 := vzeros dout in
+  v3_run (convert LR) fR gR x0 fb0 (qm2r us) = legacy_run LR fR gR x0 fb0 (qm2r us) /\
+  pairs_close_R (legacy_run LR fR gR x0 fb0 (qm2r us)) (pairs2r o_conv) /\
+  pairs_close_R (v3_run (convert LR) fR gR x0 fb0 (qm2r us)) (pairs2r o_saved) /\
+  pairs_close_R (v3_run (convert LR) fR gR x0 fb0 (qm2r us)) (pairs2r o_loaded).
+Proof. exact (chk_legacy_load_compat_R L tab g dout us o_saved o_loaded o_conv cW cWin cbias cWfb cWout). Qed.
+Print Assumptions C16_chk_legacy_load_compat_R.
+
+(* non-vacuity: N = 2, input bias, feedback through x/2, trained readout, lr = 1/2, two inputs; the table holds the two arguments
+   met.  The runner answers true, and the two R-models' runs are the embedded rows *)
+Example C16_chk_legacy_example :
+  chk_legacy (mkLegacy 2 [[0;1];[0;0]] [[1;1];[2;1]] true (Some [[1];[1]]) (Some [[0;1;2]]) (1#2))%Q
+             [([2;3], [(1#2);(3#4)]); ([(7#2);(19#4)], [(7#8);(15#16)])]%Q GHalf 1 [[1]; [2]]%Q
+             [([(1#4);(3#8)], [1]); ([(9#16);(21#32)], [(15#8)])]%Q [([(1#4);(3#8)], [1]); ([(9#16);(21#32)], [(15#8)])]%Q
+             [([(1#4);(3#8)], [1]); ([(9#16);(21#32)], [(15#8)])]%Q
+             [[0;0];[1;0]]%Q [[1];[1]]%Q [1;2]%Q (Some [[1];[1]]%Q) (Some ([[1];[2]]%Q, [0]%Q)) = true.
+Proof. exact chk_legacy_example. Qed.
+Example C16_Qlegacy_run_example :
+  legacy_run (legacy2r exL) (act_tabR (pairs2r extab)) (gfunR GHalf) (qv2r [0;0]%Q) (qv2r [0]%Q) (qm2r exus) = pairs2r exrows /\
+  v3_run (convert (legacy2r exL)) (act_tabR (pairs2r extab)) (gfunR GHalf) (qv2r [0;0]%Q) (qv2r [0]%Q) (qm2r exus) = pairs2r exrows.
+Proof. exact Qlegacy_run_example. Qed.
+
+(* ================================================================================================================
+   Tie (T) for the legacy part: translated v0.2 kernels and the extracted load_compat table (proofs/Gen_legacy_eq.v).
+   coq/gen/Gen_legacy.v is regenerated on every run from reservoirpy/compat/_base.py (_ESNBase._get_next_state,
+   _ESNBase.compute_outputs; tools/vlib/la_specs_legacy.py + py2coq_la.py) and coq/gen/Gen_compat.v from
+   reservoirpy/compat/__init__.py load_compat (tools/vlib/py2coq_compat.py: which saved array / attribute / function, transposed
+   or sliced how, is passed as which keyword of Reservoir(...) / Ridge(...) / ESN(...)).  At R, for every saved record of
+   rectangular arrays ([legacy_shaped], [legacy_rect]: numpy arrays), every activation, feedback function, state, input, feedback:
+   the generated step IS the v0.2 recurrence with its three noise terms, and [legacy_step] when the gains are 0; the generated
+   compute_outputs IS [legacy_out] on every row; the extracted keyword table, read through what Reservoir / Ridge do with their
+   keywords ([v3_of_kwargs]), IS [convert]; hence C16_load_compat_equiv speaks about the translated step and the extracted
+   conversion. *)
+From RV Require Import base.GenPrelude gen.Gen_legacy gen.Gen_compat proofs.Gen_legacy_eq.
+
+(* _get_next_state as translated = (1 - lr) x + lr (f((u~ + g_in xi_in) Win^T + x W + (g(y) + g_out xi_fb) Wfb^T) + g_rc xi_rc) *)
+Theorem C16_generated_step_noisy (L : legacy (F:=R)) (f g : list R -> list R) (gin grc gout : R) (xin xrc xfb x u fb : list R) :
+  legacy_shaped L -> legacy_rect L ->
+  GenLegacy.get_next_state (lW L) (lWin L) (c_Wfb L) (lbias L) (llr L) f g gin grc gout (c_has_fb L) xin xrc xfb u fb x
+  = legacy_step_noisy L f g gin grc gout xin xrc xfb x u fb.
+Proof. intros Hs Hr. exact (gen_step_noisy L f g Hs Hr gin grc gout xin xrc xfb x u fb). Qed.
+Print Assumptions C16_generated_step_noisy.
+
+(* noise gains 0, draws of (at least) the shapes numpy gives them: the hand model's legacy step *)
+Theorem C16_generated_step (L : legacy (F:=R)) (f g : list R -> list R) (xin xrc xfb x u fb : list R) :
+  legacy_shaped L -> legacy_rect L ->
+  (length (if lbias L then add_bias u else u) <= length xin)%nat -> (length (g fb) <= length xfb)%nat ->
+  (length (f (legacy_pre L g x u fb)) <= length xrc)%nat ->
+  GenLegacy.get_next_state (lW L) (lWin L) (c_Wfb L) (lbias L) (llr L) f g 0%R 0%R 0%R (c_has_fb L) xin xrc xfb u fb x
+  = legacy_step L f g x u fb.
+Proof. intros Hs Hr. exact (gen_step_eq L f g Hs Hr xin xrc xfb x u fb). Qed.
+Print Assumptions C16_generated_step.
+
+(* compute_outputs as translated: legacy_out on every state row of every sequence; RuntimeError (None) without a readout *)
+Theorem C16_generated_outputs (L : legacy (F:=R)) (seqs : list (list (list R))) (verbose : bool) :
+  legacy_shaped L ->
+  (forall Wo, lWout L = Some Wo ->
+     GenLegacyOut.compute_outputs (c_Wout L) (c_has_wout L) seqs verbose = Some (map (map (legacy_out Wo)) seqs)) /\
+  (lWout L = None -> GenLegacyOut.compute_outputs (c_Wout L) (c_has_wout L) seqs verbose = None).
+Proof. intros Hs. split; [intros Wo; exact (gen_outputs_eq L Hs Wo seqs verbose) | exact (gen_outputs_none L seqs verbose)]. Qed.
+Print Assumptions C16_generated_outputs.
+
+(* the keyword table extracted from load_compat, read through the v0.3 nodes, is the model's conversion map.  [saved_of L e] is the
+   saved directory as load_compat reads it: the arrays and attributes of L plus (e) dim_out, the saved functions, the noise gains *)
+Theorem C16_generated_load_compat_is_convert (L : legacy (F:=R)) (e : sidecar) :
+  legacy_shaped L -> length (lW L) = lN L -> legacy_wout_nonempty L -> extracted_convert (saved_of L e) = convert L.
+Proof. exact (extracted_convert_eq L e). Qed.
+Print Assumptions C16_generated_load_compat_is_convert.
+
+(* saved functions (identity / tanh when none was saved), noise gains (v0.2 noise_out -> v0.3 noise_fb, 0 when absent), output
+   dimension and the feedback flag of the extracted table *)
+Theorem C16_generated_load_compat_functions (L : legacy (F:=R)) (e : sidecar) :
+  (GenCompat.reservoir_fb_activation (saved_of L e) = match s_fbfunc e with Some h => h | None => s_idf e end /\
+   GenCompat.reservoir_activation (saved_of L e) = match s_act e with Some h => h | None => s_tanhf e end) /\
+  (GenCompat.reservoir_noise_in (saved_of L e) = default0 (s_gin e) /\
+   GenCompat.reservoir_noise_rc (saved_of L e) = default0 (s_grc e) /\
+   GenCompat.reservoir_noise_fb (saved_of L e) = default0 (s_gout e)) /\
+  (GenCompat.esn_feedback (saved_of L e) = c_has_fb L /\ GenCompat.ridge_input_bias (saved_of L e) = true /\
+   GenCompat.ridge_output_dim (saved_of L e) = s_dout e /\ vWfb (extracted_convert (saved_of L e)) = lWfb L).
+Proof. exact (conj (extracted_functions L e) (conj (extracted_noise L e) (extracted_feedback L e))). Qed.
+Print Assumptions C16_generated_load_compat_functions.
+
+(* C16_load_compat_equiv for the translated step and the extracted conversion: one step of the v0.3 ESN that load_compat's keyword
+   table describes (arrays, leak, activation, feedback function) = the translated _get_next_state of the saved ESN (noise 0); its
+   readout = the translated compute_outputs; whole runs = the model's legacy run *)
+Theorem C16_generated_load_compat_equiv (L : legacy (F:=R)) (e : sidecar) (f g : list R -> list R) :
+  legacy_shaped L -> legacy_rect L -> legacy_wout_nonempty L -> s_act e = Some f -> s_fbfunc e = Some g ->
+  let E := extracted_convert (saved_of L e) in
+  let fE := GenCompat.reservoir_activation (saved_of L e) in let gE := GenCompat.reservoir_fb_activation (saved_of L e) in
+  (forall xin xrc xfb x u fb,
+     (length (if lbias L then add_bias u else u) <= length xin)%nat -> (length (g fb) <= length xfb)%nat ->
+     (length (f (legacy_pre L g x u fb)) <= length xrc)%nat ->
+     v3_step E fE gE x u fb
+     = GenLegacy.get_next_state (lW L) (lWin L) (c_Wfb L) (lbias L) (llr L) f g 0%R 0%R 0%R (c_has_fb L) xin xrc xfb u fb x) /\
+  (forall Wo seqs verbose, lWout L = Some Wo ->
+     exists Wb, vWout E = Some Wb /\
+                GenLegacyOut.compute_outputs (c_Wout L) (c_has_wout L) seqs verbose = Some (map (map (v3_out Wb)) seqs)) /\
+  (forall x fb us, v3_run E fE gE x fb us = legacy_run L f g x fb us).
+Proof. exact (gen_load_compat_equiv L e f g). Qed.
+Print Assumptions C16_generated_load_compat_equiv.
+
+(* non-vacuity: the saved ESN of C16_legacy_shaped_example is rectangular, its readout has one row; the generated step on it,
+   computed at Q, with the noise gains 0 and with noise *)
+Example C16_generated_rect_example :
+  let L := (mkLegacy 2 [[0;1];[2;0]] [[1;1];[0;1]] true (Some [[1];[1]]) (Some [[1;2;3]]) (1/2))%R in
+  legacy_shaped L /\ legacy_rect L /\ legacy_wout_nonempty L.
+Proof. exact gen_rect_example. Qed.
+Example C16_generated_step_example :
+  GenLegacy.get_next_state (F:=Q) [[0;1];[2;0]]%Q [[1;1];[0;1]]%Q [[1];[1]]%Q true (1#2)%Q (fun v => v) (fun v => v) 0%Q 0%Q 0%Q true
+                           [1;1]%Q [1;1]%Q [1]%Q [1]%Q [2]%Q [1;0]%Q = [(5#2);2]%Q /\
+  GenLegacy.get_next_state (F:=Q) [[0;1];[2;0]]%Q [[1;1];[0;1]]%Q [[1];[1]]%Q true (1#2)%Q (fun v => v) (fun v => v) (1#2)%Q 1%Q (1#4)%Q true
+                           [1;1]%Q [1;1]%Q [1]%Q [1]%Q [2]%Q [1;0]%Q = [(29#8);(23#8)]%Q.
+Proof. split; vm_compute; reflexivity. Qed.
